@@ -49,6 +49,8 @@ fn main() {
             "C01" => checks::c01::replay(&v),
             "C02" => checks::c02::replay(&v),
             "C03" => checks::c03::replay(&v),
+            "C06" => checks::c06::replay(&v),
+            "C07" => checks::c07::replay(&v),
             "C10" => checks::c10::replay(&v),
             "C12" => checks::c12::replay(&v),
             "C13" => checks::c13::replay(&v),
@@ -70,6 +72,8 @@ fn main() {
         "C01" => checks::c01::run(tier, seed),
         "C02" => checks::c02::run(tier, seed),
         "C03" => checks::c03::run(tier, seed),
+        "C06" => checks::c06::run(tier, seed),
+        "C07" => checks::c07::run(tier, seed),
         "C10" => checks::c10::run(tier, seed),
         "C12" => checks::c12::run(tier, seed),
         "C13" => checks::c13::run(tier, seed),
